@@ -1,7 +1,7 @@
 (* Props/C10.v — pinned statements for property C10 (derived codecs are forward and backward compatible as
    documented). *)
 From MC Require Import Bytes Monad Cbor Decoder Encoder Types DeriveSchema DeriveEnc DeriveDec DeriveDoc DeriveKnown DeriveCompat
-  DeriveMigrate DeriveFacts DeriveDocFacts DeriveDecFacts DeriveCompatFacts DeriveClosed DeriveMigrateFacts.
+  DeriveMigrate DeriveFacts DeriveDocFacts DeriveDecFacts DeriveCompatFacts DeriveClosed DeriveSkipFacts DeriveMigrateFacts.
 Local Open Scope N_scope.
 
 (* One struct / variant body in two versions (writer fsW, reader fsR, same encoding e), related by the
@@ -18,10 +18,9 @@ Local Open Scope N_scope.
    the common schema through DeriveDecFacts.gen_decode_f_reads).
    Hypotheses: C01 for the leaf types (okty); what only the writer knows is skipped as one item — by C06 applied
    to the well-formed tree C08_format provides (C10_skippable below).
-   GOAL (C10_compat): the same for whole schemas related by the reflexive-transitive closure of the edits at
-   every nesting level, including "add a variant to an enum used only as Option<enum> field" and "unit variant ->
-   variant with only optional fields" (their field-level cores are C10_unknown_variant_optional and
-   C10_optional_ref_unknown below; the variant-level glue is checked by the correspondence only). *)
+   The schema-level statement — all nested definitions in two versions, variants added / removed, unit variant <-> variant with only
+   optional fields — is C10_compat below; this theorem is its one-body special case with shared nested definitions and an abstract
+   skippability premise. *)
 Theorem C10_compat_partial : forall (c : cfg) (okty : ty -> Prop),
   (forall t, okty t -> forall v cs, encode_ty t v = Some cs -> flat cs <> [] /\ reads_f (decode_ty c t) (flat cs) v) ->
   forall (recE : nat -> value -> option (list chunk)) (recD : nat -> nat -> M value) (recV : nat -> value -> value) (ntr : nat -> bool),
@@ -77,23 +76,24 @@ Proof. intro c. exact (struct_compat_reads c leaf_ok (leaf_reads c)). Qed.
    variant with only optional fields (a unit variant counts as the empty field list; a reader's unit variant skips whatever
    body the writer wrote); variants added to or removed from an enum.  All nested definitions evolve at once: the proof is by
    induction over the definition graph (DeriveMigrateFacts.migrate_f_two) with a two-outcome invariant per value.
-   Then for EVERY value v of the writer's definition d, with `migrate ScW ScR d v` the reader's view of it (shared fields
-   migrated recursively through references, Option and Vec; reader-only fields nil; writer-only fields ignored; skipped fields
-   defaulted; an unknown variant ANYWHERE inside the value of an optional field turns that field into its nil value):
+   Then for EVERY value v of the writer's definition d whose text strings are valid UTF-8 (a Rust String always is; the model's
+   value universe lets a string leaf carry arbitrary bytes) and which is outside the recorded class F14 — `writer_value_ok`, a
+   boolean over schema and value —, with `migrate ScW ScR d v` the reader's view of it (shared fields migrated recursively
+   through references, Option and Vec; reader-only fields nil; writer-only fields ignored; skipped fields defaulted; an
+   unknown variant ANYWHERE inside the value of an optional field turns that field into its nil value):
      migrate = Some v' : the reader's derived decoder reads the writer's derived encoding, followed by any suffix, as v' and
                          stops exactly at its end;
      migrate = None    : the value contains a variant the reader does not know outside every optional field (a place for which
                          the documentation promises nothing): the reader answers UnknownVariant — never a wrong value.
-   Hypotheses: both schemas accepted; the reader's leaf types leaf_ok and no Option<transparent newtype> (as C09); input below
-   2^64 bytes; and `writer_skippable c ScW`: skip() consumes, as one item, every item the writer's schema writes for a field (with
-   and without the field's tag) and every variant body — this is property C06 applied to the well-formed tree that C08_format
-   provides for these bytes; C10_skippable / C10_skippable_full below discharge it item by item (full configuration, text valid
-   UTF-8, outside class F14), it is NOT discharged at schema level here (it is the one premise that comes from another property;
-   no instance of it is exhibited in Coq — the correspondence runs it on every generated pair).
-   Both directions of every edit are instances (swap the roles of the schemas). *)
+   In EVERY feature configuration c.  No premise about skip() remains: that skip() consumes, as one item, every field item and
+   variant body the writer wrote is DERIVED (C10_writer_skippable below) from C08 (the bytes are the preferred serialisation of
+   the documented tree, which has no indefinite container) and C06 (skip on well-formed items with valid text; without `alloc`
+   on items without an indefinite container below a definite one).  Hypotheses: both schemas accepted with leaf_ok leaves, the
+   reader without Option<transparent newtype> (as C09), input below 2^64 bytes.  Both directions of every edit are instances
+   (swap the roles); C10_compat_example_rg / _f10 exhibit all hypotheses on concrete pairs. *)
 Theorem C10_compat : forall c ScW ScR d v cs rest,
-  schema_ok ScW = true -> schema_ok ScR = true -> schema_all leaf_ok ScR -> schema_rt ScR = true ->
-  schema_compat ScW ScR -> writer_skippable c ScW ->
+  schema_ok ScW = true -> schema_all leaf_ok ScW -> schema_ok ScR = true -> schema_all leaf_ok ScR -> schema_rt ScR = true ->
+  schema_compat ScW ScR -> writer_value_ok ScW d v = true ->
   gen_encode ScW d v = Some cs -> len (flat cs ++ rest) < two64 ->
   match migrate ScW ScR d v with
   | Some v' => gen_decode c ScR d (start (flat cs ++ rest)) = (Ok v', mkdst (len (flat cs)) rest (len (flat cs ++ rest)))
@@ -101,12 +101,12 @@ Theorem C10_compat : forall c ScW ScR d v cs rest,
   end.
 Proof. exact compat_roundtrip_closed. Qed.
 
-(* the same with the leaf types abstract (C01_roundtrip as a hypothesis) *)
+(* the same with the reader's leaf types abstract (C01_roundtrip as a hypothesis) *)
 Theorem C10_compat_gen : forall (c : cfg) (okty : ty -> Prop),
   (forall t, okty t -> forall v cs, encode_ty t v = Some cs -> flat cs <> [] /\ reads_f (decode_ty c t) (flat cs) v) ->
   forall ScW ScR d v cs rest,
-  schema_ok ScW = true -> schema_ok ScR = true -> schema_all okty ScR -> schema_rt ScR = true ->
-  schema_compat ScW ScR -> writer_skippable c ScW ->
+  schema_ok ScW = true -> schema_all leaf_ok ScW -> schema_ok ScR = true -> schema_all okty ScR -> schema_rt ScR = true ->
+  schema_compat ScW ScR -> writer_value_ok ScW d v = true ->
   gen_encode ScW d v = Some cs -> len (flat cs ++ rest) < two64 ->
   match migrate ScW ScR d v with
   | Some v' => gen_decode c ScR d (start (flat cs ++ rest)) = (Ok v', mkdst (len (flat cs)) rest (len (flat cs ++ rest)))
@@ -114,19 +114,50 @@ Theorem C10_compat_gen : forall (c : cfg) (okty : ty -> Prop),
   end.
 Proof. exact compat_roundtrip. Qed.
 
+(* the former premise of C10_compat, derived: in every configuration, skip() consumes as one item every item a definition of an
+   accepted schema writes for a field (with and without the field's tag) and every variant body, for values outside class F14
+   (known_f fmt_group = known_alias_nil) whose text is valid UTF-8 (text_f = value_text_ok) *)
+Theorem C10_writer_skippable : forall c Sc, schema_ok Sc = true -> schema_all leaf_ok Sc ->
+  forall k d df v, nth_error Sc d = Some df ->
+  known_f fmt_group (S k) Sc d v = false -> text_f (S k) Sc d v = true ->
+  def_skippable c (fun d' v' => if Nat.ltb d' d then gen_encode_f k Sc d' v' else None) df v.
+Proof. exact schema_skippable. Qed.
+
 (* one struct / variant body in two versions with the nested definitions in two versions as well (the body-level core of
-   C10_compat; generalises C10_compat_partial, whose nested definitions are shared) *)
+   C10_compat; generalises C10_compat_partial, whose nested definitions are shared); okN: what is known about the nested values *)
 Theorem C10_compat_body : forall (c : cfg) (okty : ty -> Prop),
   (forall t, okty t -> forall v cs, encode_ty t v = Some cs -> flat cs <> [] /\ reads_f (decode_ty c t) (flat cs) v) ->
-  forall (recE : nat -> value -> option (list chunk)) (recD : nat -> nat -> M value) (recM : nat -> value -> option value) (ntr : nat -> bool),
-  (forall d v cs, recE d v = Some cs ->
+  forall (recE : nat -> value -> option (list chunk)) (recD : nat -> nat -> M value) (recM : nat -> value -> option value) (ntr : nat -> bool)
+         (okN : nat -> value -> bool),
+  (forall d v cs, recE d v = Some cs -> okN d v = true ->
      flat cs <> [] /\ (ntr d = true -> hd_class (flat cs) = true) /\ outcome (recD d) (flat cs) (recM d v)) ->
   forall dW dR e sh fsW fsR vsW cs,
   fields_ok dW fsW = true -> fields_ok dR fsR = true -> fields_all okty fsR -> fields_rt ntr fsR = true ->
-  body_compat fsW fsR -> fields_skippable c recE fsW vsW ->
+  body_compat fsW fsR -> ok_fields okN fsW vsW -> fields_skippable c recE fsW vsW ->
   enc_fields recE e fsW vsW = Some cs ->
   outcome (dec_body c recD e sh fsR) (flat cs) (option_map VList (mig_fields recM fsW vsW fsR)).
 Proof. exact fields_two. Qed.
+
+(* all hypotheses of C10_compat on concrete pairs, and what it then says in every configuration with any suffix: the regular-enum
+   pair (the writer's enum has a variant 7 the reader lacks, inside an Option field) and the pair of the former finding F10 (the
+   reader adds a tagged optional field at gap index 1; related in both directions) *)
+Example C10_compat_example_rg :
+  let v := VList [VNat 1; VSome (VVar 7 (VList [VNat 5])); VNat 9] in
+  schema_ok rg_writer = true /\ schema_all leaf_ok rg_writer /\ schema_ok rg_reader = true /\ schema_all leaf_ok rg_reader /\
+  schema_rt rg_reader = true /\ schema_compat rg_writer rg_reader /\ writer_value_ok rg_writer 1 v = true /\
+  forall c rest, len ([131; 1; 130; 7; 129; 5; 9] ++ rest) < two64 ->
+    gen_decode c rg_reader 1 (start ([131; 1; 130; 7; 129; 5; 9] ++ rest))
+    = (Ok (VList [VNat 1; VNone; VNat 9]), mkdst 7 rest (len ([131; 1; 130; 7; 129; 5; 9] ++ rest))).
+Proof. exact rg_compat_instance. Qed.
+
+Example C10_compat_example_f10 :
+  schema_ok f10_writer = true /\ schema_all leaf_ok f10_writer /\ schema_ok f10_reader = true /\ schema_all leaf_ok f10_reader /\
+  schema_rt f10_reader = true /\ schema_compat f10_writer f10_reader /\ schema_compat f10_reader f10_writer /\
+  writer_value_ok f10_writer 0 (VList [VNat 1; VNat 3]) = true /\
+  forall c rest, len ([131; 1; 246; 3] ++ rest) < two64 ->
+    gen_decode c f10_reader 0 (start ([131; 1; 246; 3] ++ rest))
+    = (Ok (VList [VNat 1; VNone; VNat 3]), mkdst 4 rest (len ([131; 1; 246; 3] ++ rest))).
+Proof. exact f10_compat_instance. Qed.
 
 (* schema_compat and migrate on the regular-enum pair of C10_regular_enum_example (the writer knows variant 7 of the enum, the
    reader does not): inside the Option field the unknown variant becomes None; decoded directly it is UnknownVariant 7 *)
@@ -229,6 +260,7 @@ Print Assumptions C10_compat_struct_partial.
 Print Assumptions C10_compat.
 Print Assumptions C10_compat_gen.
 Print Assumptions C10_compat_body.
+Print Assumptions C10_writer_skippable.
 Print Assumptions C10_skippable.
 Print Assumptions C10_skippable_full.
 Print Assumptions C10_unknown_variant_optional.
